@@ -6,6 +6,8 @@ mod lat;
 mod idx;
 mod uf;
 mod trind;
+mod trrel_ind;
+mod eqrel;
 mod lat_types;
 
 use std::io::{BufRead, Write};
@@ -19,6 +21,8 @@ fn main() {
    let mut store = idx::Store::default();
    let mut ufstore = uf::Store::default();
    let mut tristore = trind::Store::default();
+   let mut trpstore = trrel_ind::Store::default();
+   let mut eqstore = eqrel::Store::default();
    for line in stdin.lock().lines() {
       let line = line.unwrap();
       let toks = match sexp::parse_line(&line) {
@@ -38,13 +42,20 @@ fn main() {
          Some("uf") => ufstore.handle_uf(&toks[1..]),
          Some("tr") => ufstore.handle_tr(&toks[1..]),
          Some("tri") => tristore.handle(&toks[1..]),
+         Some("trp") => trpstore.handle(&toks[1..]),
+         Some("eq") => eqstore.handle_eq(&toks[1..]),
+         Some("ceq") => eqstore.handle_ceq(&toks[1..]),
+         Some("eqt") => eqstore.handle_eqt(&toks[1..]),
          Some("lat") => (|| lat_types::dispatch(toks.get(1)?.atom()?, toks.get(2)?.atom()?, &toks[3..]))(),
          _ => None,
       }));
       match res {
          Ok(Some(s)) => writeln!(out, "{}", s).unwrap(),
          Ok(None) => writeln!(out, "bad-op").unwrap(),
-         Err(_) => writeln!(out, "panic").unwrap(),
+         Err(_) => {
+            trpstore.poison();
+            writeln!(out, "panic").unwrap()
+         },
       }
    }
    out.flush().unwrap();
